@@ -15,7 +15,9 @@ class Contract:
         self.file = file
         self.qual = qual
         self.cases = kw.pop("cases", None) or [kw.pop("types", {})]
-        self.cases = [{k: parse_ty(v) for k, v in c.items()} for c in self.cases]
+        # a case entry "=text" binds the parameter to that concrete string (one verified instantiation per constant)
+        self.consts = [{k: v[1:] for k, v in c.items() if isinstance(v, str) and v.startswith("=")} for c in self.cases]
+        self.cases = [{k: parse_ty("str" if isinstance(v, str) and v.startswith("=") else v) for k, v in c.items()} for c in self.cases]
         self.case_names = kw.pop("case_names", None) or ["case%d" % i for i in range(len(self.cases))]
         r = kw.pop("returns", "none")
         self.returns = [parse_ty(x) for x in r] if isinstance(r, (list, tuple)) else [parse_ty(r)] * len(self.cases)
@@ -38,7 +40,10 @@ class Contract:
         self.unroll = kw.pop("unroll", {})        # loop ordinal -> max unroll count (concrete-length loops)
         self.fresh_result = kw.pop("fresh_result", False)
         self.verify = kw.pop("verify", True)      # False: contract only used at call sites (body B/T tier)
-        self.per_case = kw.pop("per_case", {})    # case name -> dict(requires=[], ensures=[]) additions
+        self.per_case = kw.pop("per_case", {})
+        # definitional axioms of spec functions introduced by this contract: assumed when the function itself is verified,
+        # not required of callers (conservative extension: the defined symbol is constrained nowhere else)
+        self.defines = list(kw.pop("defines", []))    # case name -> dict(requires=[], ensures=[]) additions
         assert not kw, "unknown contract keys %r" % list(kw)
 
     @property
